@@ -137,18 +137,25 @@ def chk_companions(inp):
     else:
         r, e = copy.deepcopy(ref), copy.deepcopy(est)
         r0, e0 = copy.deepcopy(ref), copy.deepcopy(est)
-        res = main_rpe.rpe(r, e, rel, inp["delta"], Unit.frames, all_pairs=False, align=inp["align"])
+        unit = Unit[inp.get("delta_unit", "frames")]
+        delta = inp["delta"] if unit is Unit.frames else inp["delta_val"]
+        ap = bool(inp.get("all_pairs", False))
+        if inp["align"]:
+            e0.align(r0)
+        try:
+            pairs = metrics.id_pairs_from_delta(e0.poses_se3, delta, unit, 0.1, ap)
+        except metrics.filters.FilterException:
+            return []
+        ids = [int(j) for _, j in pairs]
+        res = main_rpe.rpe(r, e, rel, delta, unit, all_pairs=ap, align=inp["align"])
         k = len(res.np_arrays["error_array"])
         for name in ("seconds_from_start", "timestamps", "distances_from_start", "distances"):
             if len(res.np_arrays[name]) != k:
                 f.append("one_entry_per_value[%s] %d != %d" % (name, len(res.np_arrays[name]), k))
         if f:
             return f
-        ids = [j for j in range(inp["delta"], inp["n"], inp["delta"])]
         if len(ids) != k:
             return ["one_value_per_pair"]
-        if inp["align"]:
-            e0.align(r0)
         if not np.array_equal(res.np_arrays["timestamps"], e0.timestamps[ids]):
             f.append("timestamps_refer_to_the_pair_end_poses")
         if not np.allclose(res.np_arrays["seconds_from_start"], e0.timestamps[ids] - e0.timestamps[0], atol=1e-9):
@@ -156,7 +163,7 @@ def chk_companions(inp):
         tr_ = res.trajectories["estimate"]
         if tr_.num_poses != k + 1 or not np.allclose(tr_.positions_xyz, e0.positions_xyz[[0] + ids], atol=1e-9):
             f.append("stored_trajectories_restricted_to_first_pose_and_pair_ends")
-        if "RPE" not in res.info["label"] or rel.value not in res.info["title"] or str(inp["delta"]) not in res.info["title"]:
+        if "RPE" not in res.info["label"] or rel.value not in res.info["title"] or str(delta) not in res.info["title"]:
             f.append("label_title_name_metric_relation_delta")
     return f
 
@@ -186,10 +193,12 @@ def _cases(tier, seed):
             yield ("unit", {"old": o, "new": n_, "err": np.abs(rng.normal(size=5))})
             yield ("unit", {"old": o, "new": n_, "err": []})
     rels = ["translation_part", "full_transformation", "rotation_angle_deg", "rotation_angle_rad", "rotation_part", "point_distance"]
-    for it in range(30 if tier == "quick" else 1500):
+    for it in range(64 if tier == "quick" else 1500):
         yield ("companions", {"seed": 900 + it, "n": int(rng.integers(4, 40)), "which": "ape" if it % 2 else "rpe",
                               "relation": rels[it % 6], "align": bool(it % 3 == 0), "from_poses": bool(it % 2),
-                              "delta": 1 + it % 3, "unit": ["mm", "km", None][it % 3] if rels[it % 6] in
+                              "delta": 1 + it % 3, "delta_unit": ["frames", "meters", "degrees", "radians"][(it // 2) % 4],
+                              "delta_val": [1.0, 0.8, 25.0, 0.4][(it // 2) % 4], "all_pairs": bool((it // 8) % 2),
+                              "unit": ["mm", "km", None][it % 3] if rels[it % 6] in
                               ("translation_part", "point_distance") else None})
 
 
